@@ -61,12 +61,20 @@ var (
 	flagVerbose = flag.Bool("v", false, "verbose")
 	flagNoEvidence = flag.Bool("noevidence", false, "do not write the evidence file")
 	flagCross   = flag.Int("cross", -1, "number of obligations per harness re-decided by z3 4.8.12 and cvc5 (-1: tier default)")
+	flagReplayFile = flag.String("replayfile", "", "replay a stored counterexample against the native build of /repo's current tree")
 	flagFix     = flag.String("fix", "", "restrict harness choices: name=value,name=value (debugging / sharding)")
 	flagTimeBudget = flag.Duration("budget", 0, "wall-clock budget per harness (0: tier default)")
 )
 
 func main() {
 	flag.Parse()
+	if *flagReplayFile != "" {
+		os.Setenv("GOFLAGS", "-mod=mod")
+		os.Setenv("GOPROXY", "off")
+		os.Setenv("GOSUMDB", "off")
+		os.Setenv("GOTOOLCHAIN", "local")
+		os.Exit(replayStored(*flagReplayFile))
+	}
 	if *flagProp == "" {
 		fmt.Fprintln(os.Stderr, "usage: gosym -prop Cxx [-tier quick|thorough]")
 		os.Exit(2)
